@@ -35,7 +35,10 @@ func (bc *BatchConfig) EnsureValid() error {
 	if bc.Threshold > uint64(len(bc.Keypers)) {
 		return errors.Errorf("threshold too high")
 	}
-	// XXX maybe we should check for duplicate addresses
+	// thresholds and quorums are counted per entry of the keyper list
+	if err := medley.EnsureUniqueAddresses(bc.Keypers); err != nil {
+		return err
+	}
 	return nil
 }
 
